@@ -221,6 +221,17 @@ func (st *State) genCandidates(li *loopInfo, ws *writeSet) []candidate {
 			cur, ok := s.heap[hn]
 			return Eq(cur, entry), ok
 		})
+		// memory that existed at function entry is untouched (functions that write fresh memory only)
+		if st.entry != nil {
+			if fe, ok := st.entry.heap[hn]; ok {
+				ea := st.entry.alloc
+				rr := Term{"r!q", SInt}
+				add("oldmem("+hn+")", func(s *State) (Term, bool) {
+					cur, ok := s.heap[hn]
+					return Forall([]Term{rr}, Implies(And(Le(IntLit(0), rr), Le(rr, ea)), Eq(Select(cur, rr), Select(fe, rr)))), ok
+				})
+			}
+		}
 		r := Term{"r!q", SInt}
 		var refs []Term
 		var rnames []string
